@@ -58,5 +58,13 @@ CLAIMS = {
           'by model/implementation correspondence on (variant, line, col, token) and an oracle that looks the token text up at the reported place; partial proof.',
   'note': 'The invariant that the scanner keeps the table sorted and equal to the offsets after each scanned newline is not yet a theorem (correspondence compares the final table on every scan case).',
  },
+ 'C20': {
+  'category': 'proof',
+  'technique': 'Lean 4 round-trip theorem over AST types, JSON printer and reader all regenerated from ast.rs/token.rs each run + byte-for-byte JSON correspondence with serde_json + four-build differential',
+  'text': 'File.rt (and Expression.rt, Statement.rt, Package.rt): for every value of the AST, fromJson (toJson v) = some v, hence re-serialisation is identical and toJson is injective; the 69 Lean types, the serde-convention printer, the reader and the proof script are generated from the struct/enum definitions and attributes of ast.rs and token.rs on every run, '
+          'so a new field, a serde attribute (skip, rename, default, untagged, ...) or an Option of a nullable type breaks the translation or the proof. The JSON model is validated byte for byte against serde_json on every accepted input of every check; the real round trip (deserialise, compare Debug, re-serialise) runs on corpus programs, unusual shapes and mutants; '
+          'four builds {serde off,on} x {hooks off,on} must print identical Debug renderings and errors.',
+  'note': 'serde/serde_json themselves are trusted to implement the derive conventions the generator encodes; that assumption is what the byte-for-byte comparison exercises.',
+ },
 }
 NOT_CLAIMED = {}
